@@ -55,7 +55,6 @@ def compute_rise_offsets(cursor, reference_zeta_mm):
     )
 
     series = []
-    rain_intervals = []
     zeta_intervals = []
     for (
         storm_start_epoch,
@@ -63,11 +62,6 @@ def compute_rise_offsets(cursor, reference_zeta_mm):
         zeta_start_epoch,
         zeta_thru_epoch,
     ) in cursor.fetchall():
-        rain_start = np.argwhere(epoch == storm_start_epoch)[0, 0]
-        # Epoch associated with rainfall intensities are *start*
-        # epoch for the interval, so the time slice that *starts*
-        # at the storm thru_epoch is not included.
-        rain_stop = np.argwhere(epoch == storm_thru_epoch)[0, 0]
         zeta_start = np.argwhere(epoch == zeta_start_epoch)[0, 0]
         zeta_thru = np.argwhere(epoch == zeta_thru_epoch)[0, 0]
         cursor.execute(
@@ -91,7 +85,6 @@ def compute_rise_offsets(cursor, reference_zeta_mm):
         assert (
             len(zeta_seq) > 0
         ), 'empty sequence'  # pylint:disable=len-as-condition
-        rain_intervals.append((rain_start, rain_stop))
         zeta_intervals.append((zeta_start, zeta_thru + 1))
         series.append(
             (np.array((0, total_depth)), np.array((initial_zeta, final_zeta)))
